@@ -58,7 +58,7 @@ def load_known():
 def match_known(known, pid, sig):
     """Return the open finding whose 'match' dict is contained in sig, or None."""
     for e in known:
-        if e.get('status') != 'open' or e.get('property') != pid:
+        if e.get('status') != 'open' or (e.get('property') != pid and pid not in e.get('also', ())):
             continue
         m = e.get('match') or {}
         if m and all(_sig_eq(sig.get(k), v) for k, v in m.items()):
